@@ -422,7 +422,16 @@ func runC14(w *World, r *Report, tier string) {
 			}
 			iNP := indexOn(path, isNP)
 			if iNP < 0 {
-				return // failed before the reply was read: an error return (C08/C03 judge the write)
+				// left before the reply was read (marshal or write failure): this can only be an error return
+				res0 := rres(path, ret)[0]
+				if _, isCall := res0.(*ssa.Call); !isCall {
+					if _, isMI := res0.(*ssa.MakeInterface); !isMI {
+						if isNilConst(res0) || !pathAsserts(path, func(c ssa.Value, truth bool) bool { return assertsNonNil(c, truth, res0) }) {
+							bad = "authentication can be reported successful (nil) before any reply has been read (return at " + w.ipos(ret) + ")"
+						}
+					}
+				}
+				return
 			}
 			if iW := indexOn(path, isWr); iW < 0 || iW > iNP {
 				bad = "the reply is read before <auth/> has been written"
